@@ -909,11 +909,29 @@ func clLabel(c *Clause, k int) string {
 	return fmt.Sprintf("%d", k)
 }
 
+// pickProps: a clause counts for every property its function serves; properties named on the clause
+// are added to those. Only `[only …]` restricts (clauses that carry a recorded finding of one
+// property must not fail the checks of the others).
 func pickProps(c *Clause, def []string) []string {
-	if len(c.Props) > 0 {
+	if c.Only {
 		return c.Props
 	}
-	return def
+	if len(c.Props) == 0 {
+		return def
+	}
+	out := append([]string{}, def...)
+	for _, p := range c.Props {
+		dup := false
+		for _, q := range out {
+			if q == p {
+				dup = true
+			}
+		}
+		if !dup {
+			out = append(out, p)
+		}
+	}
+	return out
 }
 
 func (fr *Frame) propsOf() []string {
